@@ -5,7 +5,7 @@ import ast
 from typing import Dict, List, Set, Tuple
 
 from ..cfg import cfg_of, T as TRUE, F as FALSE
-from ..dataflow import MUTATORS, derives, rd_of
+from ..dataflow import MUTATORS, derives, rd_of, return_values
 from ..loader import dotted, walk_no_nested
 from .c08 import _stores_attr
 
@@ -295,7 +295,14 @@ def writers(ctx, rule="C09.effects", floor=40):
     comp = ctx.tree.func("program.py", "Program.compile")
     copies = {dotted(n.targets[0]) for n in walk_no_nested(comp.node) if isinstance(n, ast.Assign) and
               isinstance(n.value, ast.Call) and dotted(n.value.func) == "self._linked_copy"}
-    ctx.require(copies, "Program.compile no longer works on a self._linked_copy()")
+    # the compiled program is a linked copy: the value compile() returns derives from self._linked_copy(), never from self itself
+    rets = [v for _r, v in return_values(comp.node)]
+    from_copy = bool(copies) and bool(rets) and all(derives(comp.node, v).has_call("self._linked_copy") for v in rets)
+    ctx.ob(rule, comp.site, from_copy, "" if from_copy else "Program.compile does not return a self._linked_copy(): the compiled circuit, target and "
+           "options are written into the user's own program", role="works-on-copy", line=comp.node.lineno)
+    if not copies:
+        ctx.floor(rule, floor)
+        return
     for n in walk_no_nested(comp.node):
         if isinstance(n, ast.Call) and isinstance(n.func, ast.Attribute) and n.func.attr in MUTATORS and \
                 isinstance(n.func.value, ast.Attribute) and dotted(n.func.value.value) in copies:
